@@ -805,6 +805,9 @@ func corpus() []tcase {
 		agg("stddev", 0, vals(1, inf, 4), "stddev-inf"),
 		agg("quantile", 0.75, vals(5, 1, inf, 2, nan), "quantile-inf-nan"),
 		agg("quantile", 1, vals(5, 1, inf, 2), "quantile-1-inf"),
+		agg("quantile", 0.5, vals(inf), "quantile-single-inf"),
+		agg("quantile", 0, vals(1, inf), "quantile-0-next-inf"),
+		agg("quantile", 0.5, vals(-inf, 3, inf), "quantile-whole-rank-between-infs"),
 		bin("/", "ManyToOne", true, []string{"status"}, nil, nil, fp(1), reqs, limits, "group-left-fill-right"),
 		bin("+", "ManyToOne", true, []string{"status"}, nil, fp(0), nil, reqs, limits, "group-left-fill-left"),
 		// the fill-modifier.test cases for group_right: fill_left / fill_right act on the opposite side
@@ -834,7 +837,8 @@ type desc struct {
 
 // quantileZeroWeightInf: some group has an integral rank phi*(n-1) (interpolation weight 0) whose
 // upper neighbour values[min(n-1, rank+1)] is infinite while the value at the rank is not NaN:
-// the engine computes v*1 + Inf*0 = NaN instead of returning the value at that rank.
+// before fix 023c7e876c the engine computed v*1 + Inf*0 = NaN instead of returning the value at
+// that rank (regression class).
 func quantileZeroWeightInf(e exprT, v []smp) bool {
 	phi := e.param
 	if math.IsNaN(phi) || phi < 0 || phi > 1 {
@@ -913,8 +917,8 @@ func main() {
 			}
 		}
 		if c.e.aggOp == "quantile" && quantileZeroWeightInf(c.e, c.lhs) {
-			shape = "quantile-zero-weight-inf"
-			meta.Hit("shape:" + shape)
+			// regression class of the defect fixed by 023c7e876c (no shape: a failure here is a violation)
+			meta.Hit("quantile-whole-rank-next-to-inf")
 		}
 		if o.err == "ErrOther" {
 			shape = "engine-error"
